@@ -37,6 +37,10 @@ def build_tmdrive():
             shutil.rmtree(d, ignore_errors=True)
             shutil.copytree(T3SRC, os.path.join(d, "src"))
             shutil.copy(os.path.join(common.REPO, "go.sum"), os.path.join(d, "src", "go.sum"))
+            if common.REPO != "/repo":  # VERIF_REPO: point the replace directive at the tree under check
+                gm = os.path.join(d, "src", "go.mod")
+                txt = open(gm).read().replace("=> /repo", "=> " + common.REPO)
+                open(gm, "w").write(txt)
             p = common.sh(["go", "build", "-tags", "verif", "-o", binp, "./cmd/tmdrive"], cwd=os.path.join(d, "src"), timeout=900)
             if p.returncode != 0:
                 raise common.CheckError("tmdrive does not build against %s (verif hooks missing?):\n%s" % (common.REPO, p.stderr[-3000:]))
